@@ -4,7 +4,7 @@
 //verif:assume programs: every sequence of 3 (thorough: 4) operations over {add split s1 with files v1, add split s1 again with files v2, add split s2, commit, cancel}; crash model for VerifC12Crash: fail-stop stores at every mutating store call of a split upload or of a commit, landed or not, then a retry; interleavings for VerifC12Race: two concurrent operations (commit/commit, commit/cancel, cancel/cancel) with a preemption point before every mutating call (Put, Delete) on the metadata stores - every check-then-write window is opened - and at most 2 context switches (thorough: 3)
 //verif:cover VerifC12Programs committed refused-after-commit refused-after-cancel rerun-of-done-split-refused commit-without-split-refused
 //verif:cover VerifC12Crash split-crashed-then-rerun commit-crashed-then-retried replay-of-running-split-after-termination commit-retried-on-the-same-object fault-while-operating-on-a-terminated-diamond
-//verif:cover VerifC12Race two-commits commit-and-cancel switched checksummed-store
+//verif:cover VerifC12Race two-commits commit-and-cancel switched checksummed-store overlapping-runs-of-one-split
 package core
 
 import (
@@ -341,8 +341,43 @@ func VerifC12Race() {
 			vYield()
 		}
 	}
-	kind := vChoose("pair", 3) // 0: commit/commit, 1: commit/cancel, 2: cancel/cancel
+	kind := vChoose("pair", 4) // 0: commit/commit, 1: commit/cancel, 2: cancel/cancel, 3: two overlapping runs of split s2
 	errs := make([]error, 2)
+	if kind == 3 {
+		// two runs of the same split id with different files overlap; then the diamond is committed
+		vCover("overlapping-runs-of-one-split")
+		runs := []map[string]string{{"b": "s2-b-run1", "d": "s2-d-run1"}, {"b": "s2-b-run2"}}
+		orders := [][]string{{"b", "d"}, {"b"}}
+		vNextSecond()
+		w.meta.sched, w.vmeta.sched = hook, hook
+		w.meta.schedMutatingOnly, w.vmeta.schedMutatingOnly = true, true
+		vTasks(
+			func() { errs[0] = w.splitAdd("s2", runs[0], orders[0]) },
+			func() { errs[1] = w.splitAdd("s2", runs[1], orders[1]) },
+		)
+		w.meta.sched, w.vmeta.sched = nil, nil
+		if switches > 0 {
+			vCover("switched")
+		}
+		vAssert(!(errs[0] == nil && errs[1] == nil), "at-most-one-run-of-a-split-reports-completion")
+		vNextSecond()
+		id, cerr := w.commit(model.EnableConflicts)
+		vAssert(cerr == nil, "commit-succeeds")
+		got, e := w.entries(id)
+		vAssert(e == nil, "bundle-readable")
+		// s1 contributed a and c; s2 contributed the files of exactly one of its runs, or nothing if none completed
+		run1 := got["b"] == w.keyOf("s2-b-run1") && got["d"] == w.keyOf("s2-d-run1") && vSameKeys(got, map[string]bool{"a": true, "c": true, "b": true, "d": true})
+		run2 := got["b"] == w.keyOf("s2-b-run2") && vSameKeys(got, map[string]bool{"a": true, "c": true, "b": true})
+		none := vSameKeys(got, map[string]bool{"a": true, "c": true})
+		vAssert(run1 || run2 || none, "bundle-holds-the-files-of-exactly-one-run-of-the-split")
+		if errs[0] == nil {
+			vAssert(run1, "bundle-holds-the-run-that-reported-completion")
+		}
+		if errs[1] == nil {
+			vAssert(run2, "bundle-holds-the-run-that-reported-completion")
+		}
+		return
+	}
 	isCommit := []bool{kind <= 1, kind == 0}
 	task := func(k int) func() {
 		return func() {
